@@ -23,7 +23,10 @@ class Prop(RefProp):
         cases = []
         for _ in range(n):
             case = gen_pipes.gen_case(rng, self.profile)
-            if rng.random() < 0.05:
+            r = rng.random()
+            if r < 0.05:
                 gen_pipes.falsy_item_call(rng, case)
+            elif r < 0.09:
+                gen_pipes.lazy_foreach(rng, case)
             cases.append(case)
         return cases
